@@ -47,7 +47,10 @@ def flag_locals(fn, P):
         ats = [a for a in F.atoms(f) if is_flag_atom(a)]
         if ats:
             if f != F.atom(ats[0]):
-                raise AnalysisBroken("%s: local %s is derived from a flag test in a non-trivial way (%s): polarity undecided" % (fn.q, n, F.fshow(f)))
+                # a single-definition local combining a flag test with other conditions (`flag && X`): it is not kept as a named atom -
+                # naming() replaces it by its definition wherever it is tested, so the flag atom appears in those conditions and the
+                # polarity rule judges them over all assignments of X
+                continue
             out[n] = ats[0]
     return out
 
